@@ -163,8 +163,8 @@ func (vc *FuncVC) solveAll(obs []*Oblig, cfg solverCfg) {
 	var redo []*Oblig
 	for _, o := range obs {
 		if o.Result != o.Expect {
-			if o.Expect == "sat" && o.Result == "unknown" {
-				continue // cover check not refuted
+			if o.Expect == "sat" && o.Result == "unsat" {
+				continue // infeasible path: definitive
 			}
 			redo = append(redo, o)
 		}
